@@ -44,6 +44,9 @@ func TestMain(m *testing.M) {
 		case "c20-sleeper":
 			sleeperMain()
 			return
+		case "c20-hookaido":
+			hookaidoMain(os.Args[2:])
+			return
 		}
 	}
 	os.Exit(m.Run())
@@ -62,7 +65,7 @@ func (c caseSpec) key() string {
 	if c.Variant != "minimal" {
 		v = ":" + c.Variant
 	}
-	return c.Tool + ":" + c.Cfg.key() + v
+	return toolLabel(c.Tool) + ":" + c.Cfg.key() + v
 }
 
 // unknown tool names. nearest names the documented tool a lenient implementation could normalise it to
@@ -70,10 +73,60 @@ func (c caseSpec) key() string {
 type unknownName struct{ Name, Nearest string }
 
 var unknownQuick = []unknownName{{"config_delete", ""}, {"instance_restart", ""}}
-var unknownThorough = []unknownName{{"config_apply ", "config_apply"}, {" dlq_delete", "dlq_delete"}, {"INSTANCE_STOP", "instance_stop"},
-	{"messages_purge", ""}, {"tools/list", ""}}
+var unknownThorough = []unknownName{{"messages_purge", ""}, {"tools/list", ""}}
+
+// ---- tool-name spellings -----------------------------------------------------------------------------
+//
+// The tool name of a tools/call is caller-supplied text. Every documented tool is also called under the spellings
+// below: names a lenient implementation could normalise to the documented tool (white space around it, letter case,
+// '-' for '_'). The statement leaves two answers: the name is unknown (refused, no effect) or it IS that tool - then
+// every clause holds for it: role, flag, principal and actor gate of the documented tool, and, if the call ran and the
+// tool is mutating, exactly one audit record.
+type spelling struct {
+	Tag   string
+	Quick bool
+	Make  func(string) string
+}
+
+var spellings = []spelling{
+	{"sp-trail", true, func(n string) string { return n + " " }},
+	{"ws-wrap", true, func(n string) string { return "\t" + n + "\r\n" }},
+	{"upper", true, func(n string) string { return strings.ToUpper(n) }},
+	{"sp-lead", false, func(n string) string { return " " + n }},
+	{"dash", false, func(n string) string { return strings.ReplaceAll(n, "_", "-") }},
+	{"nbsp-trail", false, func(n string) string { return n + "\u00a0" }},
+}
+
+// nearestTool: the documented tool a spelled name normalises to ("" = none, or the name is itself documented).
+func nearestTool(name string) string {
+	if _, ok := refByName[name]; ok {
+		return ""
+	}
+	c := strings.ReplaceAll(strings.ToLower(strings.TrimSpace(name)), "-", "_")
+	if _, ok := refByName[c]; ok {
+		return c
+	}
+	return ""
+}
+
+// toolLabel is the printable form of a tool name used in case and violation keys: `<tool>~<spelling tag>`.
+func toolLabel(name string) string {
+	near := nearestTool(name)
+	if near == "" {
+		return name
+	}
+	for _, sp := range spellings {
+		if sp.Make(near) == name {
+			return near + "~" + sp.Tag
+		}
+	}
+	return near + "~" + fmt.Sprintf("%q", name)
+}
 
 func unknownByName(n string) (unknownName, bool) {
+	if near := nearestTool(n); near != "" {
+		return unknownName{n, near}, true
+	}
 	for _, u := range append(append([]unknownName{}, unknownQuick...), unknownThorough...) {
 		if u.Name == n {
 			return u, true
@@ -87,6 +140,9 @@ func unknownByName(n string) (unknownName, bool) {
 // minimalArgs returns minimal valid arguments for the tool in the fixture, chosen so that a call that runs
 // has an observable effect where the tool has one.
 func minimalArgs(w *worker, tool string) map[string]any {
+	if near := nearestTool(tool); near != "" {
+		tool = near // a spelled name is called with the valid arguments of the documented tool
+	}
 	switch tool {
 	case "config_diff":
 		return map[string]any{"content": w.baseCfg + extraRoute}
@@ -168,6 +224,20 @@ func variantsFor(tool string, thorough bool) []string {
 	if thorough {
 		// further environment states (same gate, other code paths / error paths)
 		vs = append(vs, "env:no-db", "env:bad-config", "env:no-config", "env:memory-backend")
+	}
+	if near := nearestTool(tool); near != "" {
+		// spelled name of a documented tool: the table row, and for mutating tools the actor binding
+		vs = []string{"minimal"}
+		if refByName[near].Mutating {
+			vs = append(vs, "actor-other")
+		}
+		if thorough {
+			vs = append(vs, "twice")
+			if refByName[near].Mutating {
+				vs = append(vs, "actor-eq")
+			}
+		}
+		return vs
 	}
 	if !known {
 		return append(vs, "no-arguments")
@@ -313,6 +383,7 @@ type caseResult struct {
 	Findings   []finding
 	InfraErr   string
 	InputHash  string
+	SpelledRan bool // a spelled tool name was run as the documented mutating tool (audit clause applied)
 	AdminReads int
 	ArgsJSON   string
 }
@@ -535,10 +606,10 @@ func runCase(w *worker, spec caseSpec) *caseResult {
 	switch v {
 	case refDeny:
 		if !cr.Refused {
-			fail("gate:"+gk+":ran", "call was not refused although the reference denies it (tool=%s role=%s mutations=%v runtime=%v principal=%q actor=%q args=%s)", spec.Tool, spec.Cfg.Role, spec.Cfg.Mut, spec.Cfg.RT, spec.Cfg.Principal, actor, cr.ArgsJSON)
+			fail("gate:"+gk+":ran", "call was not refused although the reference denies it (tool=%s role=%s mutations=%v runtime=%v principal=%q actor=%q args=%s)", toolLabel(spec.Tool), spec.Cfg.Role, spec.Cfg.Mut, spec.Cfg.RT, spec.Cfg.Principal, actor, cr.ArgsJSON)
 		}
 		if len(effects) > 0 {
-			fail("effect:"+gk, "refused call had an effect: %v (tool=%s role=%s mutations=%v runtime=%v principal=%q actor=%q)", effects, spec.Tool, spec.Cfg.Role, spec.Cfg.Mut, spec.Cfg.RT, spec.Cfg.Principal, actor)
+			fail("effect:"+gk, "refused call had an effect: %v (tool=%s role=%s mutations=%v runtime=%v principal=%q actor=%q)", effects, toolLabel(spec.Tool), spec.Cfg.Role, spec.Cfg.Mut, spec.Cfg.RT, spec.Cfg.Principal, actor)
 		}
 	case refAllow:
 		if cr.Refused && mustRun(spec.Tool, spec.Variant) {
@@ -578,7 +649,14 @@ func runCase(w *worker, spec caseSpec) *caseResult {
 
 	// --- (D) audit: every call of a mutating tool appends exactly one record with the required fields
 	cr.AuditN = len(res.Audit) + res.AuditBad
-	if known && tref.Mutating {
+	audited, auditName, auditLabel := known && tref.Mutating, spec.Tool, spec.Tool
+	if near := nearestTool(spec.Tool); near != "" && refByName[near].Mutating && !cr.Refused {
+		// a spelled name that was not refused was run as the documented mutating tool: it is a mutating call
+		// (a refused one may have been taken for an unknown tool: then there is nothing to audit)
+		audited, auditName, auditLabel = true, near, toolLabel(spec.Tool)
+		cr.SpelledRan = true
+	}
+	if audited {
 		class := "ran"
 		if v == refDeny {
 			class = "denied"
@@ -586,15 +664,15 @@ func runCase(w *worker, spec caseSpec) *caseResult {
 			class = "failed"
 		}
 		if res.AuditBad > 0 {
-			fail("audit:"+spec.Tool+":"+class+":not-json", "audit output has %d lines that are not JSON objects: %q", res.AuditBad, res.AuditRaw)
+			fail("audit:"+auditLabel+":"+class+":not-json", "audit output has %d lines that are not JSON objects: %q", res.AuditBad, res.AuditRaw)
 		}
 		if cr.AuditN != repeat {
-			fail(fmt.Sprintf("audit:%s:%s:count=%d/%d", spec.Tool, class, cr.AuditN, repeat), "%d mutating call(s) (%s, variant %s, cfg %s) produced %d audit records, want exactly one per call: %q", repeat, class, spec.Variant, spec.Cfg.key(), cr.AuditN, res.AuditRaw)
+			fail(fmt.Sprintf("audit:%s:%s:count=%d/%d", auditLabel, class, cr.AuditN, repeat), "%d mutating call(s) (%s, variant %s, cfg %s) produced %d audit records, want exactly one per call: %q", repeat, class, spec.Variant, spec.Cfg.key(), cr.AuditN, res.AuditRaw)
 		} else if len(res.Audit) == 1 {
 			ev := res.Audit[0]
 			for _, f := range auditFields {
 				if _, ok := ev[f]; !ok {
-					fail("audit:"+spec.Tool+":"+class+":missing:"+f, "audit record lacks %q: %v", f, ev)
+					fail("audit:"+auditLabel+":"+class+":missing:"+f, "audit record lacks %q: %v", f, ev)
 				}
 			}
 			durOK := false
@@ -606,7 +684,7 @@ func runCase(w *worker, spec caseSpec) *caseResult {
 				}
 			}
 			if !durOK {
-				fail("audit:"+spec.Tool+":"+class+":missing:duration", "audit record lacks a non-negative duration: %v", ev)
+				fail("audit:"+auditLabel+":"+class+":missing:duration", "audit record lacks a non-negative duration: %v", ev)
 			}
 			if ts, ok := ev["timestamp"]; ok {
 				good := false
@@ -619,38 +697,38 @@ func runCase(w *worker, spec caseSpec) *caseResult {
 					good = x > 0
 				}
 				if !good {
-					fail("audit:"+spec.Tool+":"+class+":bad:timestamp", "audit timestamp is not a time: %v", ts)
+					fail("audit:"+auditLabel+":"+class+":bad:timestamp", "audit timestamp is not a time: %v", ts)
 				}
 			}
 			if p, ok := ev["principal"]; ok {
 				if ps, _ := p.(string); ps != spec.Cfg.Principal {
-					fail("audit:"+spec.Tool+":"+class+":bad:principal", "audit principal %v, configured %q", p, spec.Cfg.Principal)
+					fail("audit:"+auditLabel+":"+class+":bad:principal", "audit principal %v, configured %q", p, spec.Cfg.Principal)
 				}
 			}
 			if rl, ok := ev["role"]; ok {
 				rs, _ := rl.(string)
 				if _, valid := roleRankRef(spec.Cfg.Role); valid && rs != spec.Cfg.Role {
-					fail("audit:"+spec.Tool+":"+class+":bad:role", "audit role %v, configured %q", rl, spec.Cfg.Role)
+					fail("audit:"+auditLabel+":"+class+":bad:role", "audit role %v, configured %q", rl, spec.Cfg.Role)
 				} else if rs == "" {
-					fail("audit:"+spec.Tool+":"+class+":bad:role", "audit role is empty")
+					fail("audit:"+auditLabel+":"+class+":bad:role", "audit role is empty")
 				}
 			}
 			if tn, ok := ev["tool"]; ok {
-				if ts, _ := tn.(string); ts != spec.Tool {
-					fail("audit:"+spec.Tool+":"+class+":bad:tool", "audit tool %v, called %q", tn, spec.Tool)
+				if ts, _ := tn.(string); ts != spec.Tool && ts != auditName {
+					fail("audit:"+auditLabel+":"+class+":bad:tool", "audit tool %v, called %q", tn, spec.Tool)
 				}
 			}
 			if h, ok := ev["input_hash"]; ok {
 				hs, _ := h.(string)
 				if hs == "" {
-					fail("audit:"+spec.Tool+":"+class+":bad:input_hash", "audit input_hash is empty: %v", h)
+					fail("audit:"+auditLabel+":"+class+":bad:input_hash", "audit input_hash is empty: %v", h)
 				}
 				cr.InputHash = hs
 			}
 			if rv, ok := ev["result"]; ok {
 				rs, _ := rv.(string)
 				if rs == "" {
-					fail("audit:"+spec.Tool+":"+class+":bad:result", "audit result is empty: %v", rv)
+					fail("audit:"+auditLabel+":"+class+":bad:result", "audit result is empty: %v", rv)
 				}
 				cr.AuditRes = rs
 			}
@@ -680,10 +758,24 @@ func allCases(thorough bool) []caseSpec {
 			names = append(names, u.Name)
 		}
 	}
+	// every documented tool under every spelling of the alphabet (quick: the quick spellings and the three documented roles)
+	for _, sp := range spellings {
+		if !sp.Quick && !thorough {
+			continue
+		}
+		for _, t := range refTable {
+			if n := sp.Make(t.Name); nearestTool(n) == t.Name {
+				names = append(names, n)
+			}
+		}
+	}
 	var out []caseSpec
 	for _, n := range names {
 		vs := variantsFor(n, thorough)
 		for _, ro := range roles {
+			if _, valid := roleRankRef(ro.role); !valid && !thorough && nearestTool(n) != "" {
+				continue
+			}
 			for _, mut := range []bool{false, true} {
 				for _, rt := range []bool{false, true} {
 					for _, p := range []string{principalName, ""} {
@@ -738,7 +830,7 @@ func TestCheck(t *testing.T) {
 
 	// single-case replay
 	if p := runner.ReplayPath(); p != "" {
-		if !replaySeq(r, fx, p) { // seq_test.go: replay files of the sequence part
+		if !replayWiring(r, fx, p) && !replaySeq(r, fx, p) { // wiring_test.go / seq_test.go: replay files of those parts
 			replayOne(r, fx, p)
 		}
 		r.Finish()
@@ -831,6 +923,9 @@ func TestCheck(t *testing.T) {
 		}
 	}
 
+	// --- the server as `hookaido mcp serve` wires it: a real process, audit sink = its stderr (wiring_test.go)
+	wiringPart(r, fx, deadline)
+
 	// --- the table
 	cases := allCases(r.Thorough())
 	nw := runtime.NumCPU()
@@ -878,7 +973,17 @@ func TestCheck(t *testing.T) {
 				}
 				r.Add("evaluations", 2) // one tools/list + one tools/call decision
 				r.Add("cases", 1)
-				if spec.Variant == "minimal" {
+				if near := nearestTool(spec.Tool); near != "" {
+					r.Add("spelled_name_cases", 1)
+					switch {
+					case cr.Refused:
+						r.Add("spelled_name_refused", 1)
+					case cr.SpelledRan:
+						r.Add("spelled_name_ran_audit_checked", 1)
+					default:
+						r.Add("spelled_name_ran", 1)
+					}
+				} else if spec.Variant == "minimal" {
 					r.Add("table_rows", 1)
 				} else {
 					r.Add("variant_cases", 1)
@@ -902,7 +1007,7 @@ func TestCheck(t *testing.T) {
 				if cr.Refused {
 					outcome = "refused"
 				}
-				r.Distinct(fmt.Sprintf("%s|%s|%s|ref=%s|%s", spec.Tool, spec.Cfg.key(), spec.Variant, cr.Verdict, outcome))
+				r.Distinct(fmt.Sprintf("%s|%s|%s|ref=%s|%s", toolLabel(spec.Tool), spec.Cfg.key(), spec.Variant, cr.Verdict, outcome))
 				if wantedSamples[spec.key()] {
 					mu.Lock()
 					sampleOf[spec.key()] = map[string]any{"tool": spec.Tool, "cfg": spec.Cfg.key(), "variant": spec.Variant, "ref": cr.Verdict.String(),
@@ -1086,10 +1191,21 @@ func TestCheck(t *testing.T) {
 	}
 	r.Set("workers", nw)
 	r.Set("cases_planned", len(cases))
-	r.Set("rule", "complete product: 31 documented tool names + 2 unknown names x role input {read, operate, admin, invalid 'root' via WithRole, invalid 'superuser' via Server.Role} x --enable-mutations {off,on} x --enable-runtime-control {off,on} x principal {set, empty} = 1320 table rows; every row is one Serve session (initialize, tools/list, tools/call with minimal valid arguments) on a fresh scratch directory (seeded SQLite queue db, config file, pid file of a harness child, foreign files) with side-effect probes; every row is repeated for every argument-shape variant of its tool (unknown key, no arguments, actor = / != principal in 4 spellings, missing reason, 12 path spellings (incl. a `..` behind a symlinked directory and symbolic links to the foreign and to the configured file), config_apply content{6} x mode{3}, management mode{2}); every row is also run twice in one session and on a server without configured config path (plus 6 path spellings there for the 8 path-taking tools: nothing may be written or created anywhere, no foreign content served); thorough adds 5 more unknown names (padded / upper-case spellings of real tools), 3 more invalid role inputs, 4 environment states (db missing, config unparsable, config missing, all routes on the memory backend = admin-proxy mode against a recording Admin API stand-in) . A case is distinct by (tool, configuration, variant, reference verdict, observed outcome)")
+	{
+		var tags []string
+		for _, sp := range spellings {
+			if sp.Quick || r.Thorough() {
+				tags = append(tags, sp.Tag)
+			}
+		}
+		r.Set("tool_name_spellings", tags)
+	}
+	r.Set("rule", "complete product: 31 documented tool names + 2 unknown names x role input {read, operate, admin, invalid 'root' via WithRole, invalid 'superuser' via Server.Role} x --enable-mutations {off,on} x --enable-runtime-control {off,on} x principal {set, empty} = 1320 table rows; every row is one Serve session (initialize, tools/list, tools/call with minimal valid arguments) on a fresh scratch directory (seeded SQLite queue db, config file, pid file of a harness child, foreign files) with side-effect probes; every row is repeated for every argument-shape variant of its tool (unknown key, no arguments, actor = / != principal in 4 spellings, missing reason, 12 path spellings (incl. a `..` behind a symlinked directory and symbolic links to the foreign and to the configured file), config_apply content{6} x mode{3}, management mode{2}); every row is also run twice in one session and on a server without configured config path (plus 6 path spellings there for the 8 path-taking tools: nothing may be written or created anywhere, no foreign content served); every documented tool is also called under spellings of its name (quick: trailing space, tab+CRLF wrap, upper case x the three documented roles x flags x principal x {minimal, actor != principal}; thorough: also leading space, '-' for '_', trailing NBSP, all role inputs, twice / actor = principal): refused without effect, or gated exactly like the documented tool and - if it ran and the tool is mutating - audited with exactly one record; before the table, `hookaido mcp serve` is run as a real child process (app.Main; stdin/stdout pipes, stderr = audit sink file) for every mutating tool x 3 configurations (thorough 5) x end {SIGKILL, end of input} with three calls per session (valid arguments, none, valid again): at the moment each answer is read, and after the process ended, the sink holds exactly one complete record per answered call; thorough adds 2 more unknown names, 3 more invalid role inputs, 4 environment states (db missing, config unparsable, config missing, all routes on the memory backend = admin-proxy mode against a recording Admin API stand-in) . A case is distinct by (tool, configuration, variant, reference verdict, observed outcome)")
 	r.Assume("reference table transcribed from docs/mcp.md, internal/mcp/spec.md, DESIGN.md 'Access Model' (cross-checked against the tree's docs at run time); 'refused' = JSON-RPC error or result.isError")
 	r.Assume("invalid role strings: the statement does not say whether they mean 'read' (documented default) or 'nothing'; both are accepted for read-level tools as long as tools/list and tools/call agree; anything above read must be refused")
 	r.Assume("queue backend sqlite in the table; admin-proxy mode (memory backend) only as a thorough-tier environment variant against a recording stand-in that answers 200 to everything (postgres is the same code path, not run); process effects are observed on harness-owned children (fake run binary = this test binary, signal-recording sleeper); admin health is an in-process loopback listener")
+	r.Assume("wiring part: the audit sink of `hookaido mcp serve` is a regular file opened O_APPEND as the child's stderr (not a pipe or terminal); instance_* tools are only run in configurations that deny them (no process control from the child); lines of the sink that are not JSON objects with a `tool` member are taken for diagnostics and ignored; 'at the answer' = after the complete response frame was read from the child's stdout")
+	r.Assume("tool-name spellings: a finite alphabet of 6 spellings (3 in quick) that white-space trimming, case folding or '-'/'_' folding would map to a documented tool; for a refused spelled call the statement does not say whether it was a mutating call (unknown tool vs denied tool), so no audit record is demanded or forbidden there")
 	r.Assume("confinement is checked on the enumerated path/content alphabet, not on arbitrary strings; audit fields are checked for presence and plausibility (principal/role/tool equal the configuration, input_hash is a function of the arguments and not constant over different arguments, result separates denied/failed from success), not for formatting")
 	r.Finish()
 }
